@@ -2,10 +2,12 @@
 # tools/thorough_smoke.sh [scale]: every thorough command (or those named in PROPS) with a scaled budget (no evidence written)
 cd "$(dirname "$0")/.." || exit 2
 S=${1:-0.03}
+rc=0
 IDS=${PROPS:-$(/venv/bin/python -c "import json;print(' '.join(c['property_id'] for c in json.load(open('MANIFEST.json'))['checks']))")}
 for id in $IDS; do
   t0=$(date +%s)
   VERIF_BUDGET_SCALE=$S VERIF_NO_EVIDENCE=1 ./check $id --tier thorough > /tmp/thor_$id.out 2>&1; r=$?
   echo "$id thorough(scale $S) exit=$r $(( $(date +%s) - t0 ))s $(grep '^runs=' /tmp/thor_$id.out | cut -c1-80)"
-  [ $r -ne 0 ] && grep -E "^(VIOLATION|HARNESS|violation of)" /tmp/thor_$id.out | cut -c1-300
+  if [ $r -ne 0 ]; then rc=1; grep -E "^(VIOLATION|HARNESS|violation of)" /tmp/thor_$id.out | cut -c1-300; fi
 done
+exit $rc
